@@ -94,3 +94,31 @@ def declare(check, na):
     check('C40', 'exploration', 'boundary event history + capacity-conservation check at quiescent points + final acquire(max) probe, cancellation injected in every state',
           'seeded schedules of the real WeightedSemaphore with cancellation of waiting, just-woken and holding tasks and raising bodies: never over capacity and no capacity consumed by nobody at any quiescent point',
           'trusted: vf/sim/vloop.py, vf/sim/quiesce.py; a reference semaphore is used for classification only')
+
+    check('C39', 'exploration', 'concurrent world under virtual time: real driver loop bodies, fake workers, clients, preemption injector, seeded delays at every SQL statement; bounded-progress and no-double-run oracles',
+          'during a fault phase (preemptions, lost / duplicated worker messages, cancellations) and a quiescent phase of bounded length the real scheduler, JPIM and canceller loop bodies run as concurrent tasks whose database statements interleave; afterwards every committed job must be terminal, cancelled batches complete, always-run jobs not Cancelled, and no older attempt may keep running beside a newer one',
+          SQL_NOTE + '; unbounded liveness is restated as bounded progress (R = 4 x #jobs + 10 rounds); the autoscaler and the worker are harness stand-ins; replays of a single case may schedule differently from the in-shard run (object-identity ordered sets inside asyncio)')
+    check('C11', 'exploration', 'icontract post-condition with an exact-rational water-filling reference over seeded and exhaustive-small inputs',
+          'the real PoolScheduler._compute_fair_share (fed by a fake query result) is compared with an exact water-filling allocation on ~35k / 1.6M demand multisets incl. ties, zeros, huge values and negative / zero / exact-fit / surplus free cores; one mcpu of rounding slack per user',
+          'trusted: the Fraction reference, icontract, the fake DB generator')
+    check('C12', 'exploration', 'grammar-directed request strings x generated pool deployments through the real handler / selection code, exact-rational request evaluator + brute-force satisfiability oracle',
+          'request strings accepted by the real validator are placed by the real _create_jobs / select_inst_coll / convert_requests_to_resources on generated gcp and azure pool configurations; grants must cover the request and fit one worker, rejections must be confirmed by a brute-force search over all configured collections',
+          'trusted: the Fraction evaluator and satisfiability predicate, the machine-type tables as the truth about worker sizes, the recording fake DB; inert SDK stubs are asserted never to be called')
+    check('C13', 'exploration', 'enumeration of machine types x disk / preemptible / region options with packing-sum and serialization round-trip oracles',
+          'for every machine type of both clouds and every pool the config page can build: per resource, the billed quantities of any packing of power-of-two requests never exceed the whole worker, the whole-worker job is billed exactly the worker, and to_dict / from_dict reload bills identically',
+          'trusted: a fake ProductVersions table in which every product exists; json as the storage format')
+    check('C15', 'exploration', 'schema-walking spec generator through the real validator and handler, all format versions, exhaustive region subsets <= 12 and random <= 63',
+          'specs generated from the real job_validator are stored by the real _create_jobs under every format version and read back with the real getters; region subsets are converted to bits and back (exhaustive up to 12 regions, random up to 63, ids up to 63)',
+          'trusted: the recording fake DB and file store')
+    check('C31', 'exploration', 'print / parse round trip on real code + transcribed IRLexer / type_expr model over hostile Unicode identifiers and a code-point sweep',
+          'every generated nested type parses back equal, and its _parsable_string / escaped identifiers are tokenised by a transcription of the engine lexer to the same names; characters whose Java class depends on the Unicode version are not judged',
+          'trusted: the lexer / parser transcription in c31.py (from Parser.scala and StringEscapeUtils.scala; the Scala engine cannot run here), the parsimonious shim, vf/gen_hail_types.py')
+    check('C32', 'exploration', 'type-directed value generation + JSON wire round trip with NaN / container-aware equality and failure localisation',
+          'generated well-typed values (missing anywhere, non-finite floats, calls, loci, intervals, sets, dicts, ndarrays, nested structs) are converted to the JSON wire form and back by the real code and must come back equal',
+          'trusted: vf/gen_hail_types.py (generator and equality)')
+    check('C33', 'exploration', 'encode / decode round trip on real code + independent decoder written from EType.fromPythonTypeEncoding',
+          'the bytes produced by the real encoder decode back equal, and an independent engine-layout decoder consumes them exactly to the same value',
+          'trusted: the independent decoder in c33.py (written from the Scala EType sources; the engine cannot run here), vf/hail_call_model.py')
+    check('C34', 'exploration', 'exhaustive small / boundary / random calls and genotype indices against a transcription of Call.scala / Genotype.scala with constants extracted from the Scala at run time',
+          'the Python int32 packing equals the model for every call the model accepts without overflow, decode and index <-> allele pair are inverse; engine-rejected calls are recorded, not judged',
+          'trusted: vf/hail_call_model.py (transcription; constants are re-extracted from the Scala sources on every run, extraction failure => INCONCLUSIVE)')
